@@ -10,6 +10,12 @@ Checked on every converted form, from the parsed XForm only (ElementTree) plus t
     included) is rejected, not converted.
 Nothing is computed with pyxform: paths are resolved by walking the parsed instance, the expected sibling names are
 read from the source sheet (shared reader in bounded/oracles/C03.py).
+
+Domain (triage, see FINDINGS_C02.md): the property speaks of the refs the converter derives for controls from the
+survey tree.  A `body::ref` / `control::ref` cell is the author writing the control's ref attribute verbatim (the
+documented `body::<attribute>` pass-through); such a ref is the author's, not a generated one, and the property text
+does not cover it.  The oracle therefore sets aside exactly the controls whose ref is the text of such a cell (modulo
+${..} substitution) and keeps every demand on all other controls, binds, repeats and actions of the same form.
 """
 from __future__ import annotations
 
@@ -63,20 +69,44 @@ def resolve(iroot, path: str):
     return cur, attr, None
 
 
+AUTHOR_REF_COLUMNS = ("body::ref", "control::ref", "body:ref", "control:ref")
+
+
+def author_refs(wb):
+    """One regex per non-empty cell of a column that writes a control's ref attribute verbatim (body::ref ...).
+    The regex matches the cell text with every ${name} standing for a path that ends in `name`."""
+    out = []
+    if wb is None:
+        return out
+    sh = next((k for k in wb if str(k).strip().lower() == "survey"), None)
+    if sh is None:
+        return out
+    headers, rows = wb[sh]
+    cols = [i for i, h in enumerate(headers) if str(h or "").strip().lower().replace(" ", "") in AUTHOR_REF_COLUMNS]
+    for row in rows:
+        for i in cols:
+            v = row[i] if i < len(row) else None
+            if v is None or not str(v).strip():
+                continue
+            # ${name} stands for a path whose last step is `name`; literal text is kept, blanks compared loosely
+            rx, pos, text = r"\s*", 0, str(v).strip()
+            for m in re.finditer(r"\$\{(?:last-saved#)?([^}]*)\}", text):
+                rx += r"\s*".join(re.escape(w) for w in text[pos:m.start()].split())
+                rx += r"\s*(?:instance\('__last-saved'\))?(?:\.\./|/)(?:[^\s/]+/)*" + re.escape(m.group(1).strip()) + r"\s*"
+                pos = m.end()
+            rx += r"\s*".join(re.escape(w) for w in text[pos:].split()) + r"\s*"
+            out.append(re.compile(rx, re.S))
+    return out
+
+
 def check(case, res, ctx):
     vs = []
     wb = source_wb(case)
     tree = survey_tree(wb)
+    authored = author_refs(wb)
 
     # --- source side: exact duplicate sibling names (generated helpers included) must be rejected
     ambiguous = None
-    user_ref_column = False
-    if wb is not None:
-        sh = next((k for k in wb if str(k).strip().lower() == "survey"), None)
-        if sh is not None:
-            user_ref_column = any(str(h or "").strip().lower().replace(" ", "") in
-                                  ("body::ref", "control::ref", "body:ref", "control:ref", "bind::nodeset", "body::nodeset")
-                                  for h in wb[sh][0])
     if tree.ok:
         sib = {}
         for r in tree.rows:
@@ -105,7 +135,6 @@ def check(case, res, ctx):
     if xf is None or xf.iroot is None:
         return vs
     iroot = xf.iroot
-    sfx = ":user-ref-column" if user_ref_column else ""
 
     # --- sibling names unique in the primary instance (template twin allowed)
     for e in iroot.iter():
@@ -123,11 +152,11 @@ def check(case, res, ctx):
         if path is None:
             return
         if not ABS_PATH.match(path):
-            vs.append(_v(f"C02:{kind}-not-absolute" + sfx, f"{kind} '{path}' on <{local(el.tag)}> is not an absolute path"))
+            vs.append(_v(f"C02:{kind}-not-absolute", f"{kind} '{path}' on <{local(el.tag)}> is not an absolute path"))
             return
         nodes, attr, problem = resolve(iroot, path)
         if problem:
-            vs.append(_v(f"C02:{kind}-unresolved" + sfx, f"{kind} '{path}' on <{local(el.tag)}>: {problem} in the primary instance"))
+            vs.append(_v(f"C02:{kind}-unresolved", f"{kind} '{path}' on <{local(el.tag)}>: {problem} in the primary instance"))
 
     # --- binds
     bound = {}
@@ -155,11 +184,15 @@ def check(case, res, ctx):
             elif t not in NOT_CONTROLS and e.tag.startswith(("{http://www.w3.org/2002/xforms}", "{http://www.opendatakit.org/xforms}")):
                 r = e.get("ref")
                 if r is not None:
-                    path_ok("control-ref", e, r)
+                    # a ref that is the text of a body::ref cell was written by the author, not generated
+                    if not any(rx.fullmatch(r) for rx in authored):
+                        path_ok("control-ref", e, r)
                     refs.setdefault(r, []).append(t)
     for r, tags in refs.items():
-        if len(tags) > 1:
-            vs.append(_v("C02:controls-share-ref" + sfx, f"controls {tags} all have ref '{r}'"))
+        # each body::ref cell accounts for at most one of the controls carrying its text
+        n_generated = len(tags) - sum(1 for rx in authored if rx.fullmatch(r))
+        if len(tags) > 1 and n_generated > 1:
+            vs.append(_v("C02:controls-share-ref", f"controls {tags} all have ref '{r}'"))
             break
     for e in xf.root.iter():
         if local(e.tag) in ACTIONS:
@@ -344,6 +377,21 @@ def override_family():
             {"type": "begin group", "name": "g", "label": "G", "instance::k": "v", "bind::relevant": "${a} = 1"},
             {"type": "text", "name": "b", "label": "B"}, {"type": "end group"}]
     out.append(_md("c02-override-harmless-attributes", rows))
+    # an author-written ref on one row sets aside that control only: every other ref of the form is still demanded
+    rows = [{"type": "text", "name": "a", "label": "A"},
+            {"type": "text", "name": "b", "label": "B", "body::ref": "${a}"},
+            {"type": "begin repeat", "name": "Rep", "label": "R"},
+            {"type": "begin group", "name": "Grp", "label": "G"},
+            {"type": "text", "name": "Q1", "label": "Q", "body::ref": "/data/Rep/Grp/Q2"},
+            {"type": "text", "name": "Q2", "label": "Q2"},
+            {"type": "select_one l or_other", "name": "Crop", "label": "C"},
+            {"type": "calculate", "name": "stamp", "calculation": "now()", "trigger": "${Q2}"},
+            {"type": "background-geopoint", "name": "where", "trigger": "${Q2}"},
+            {"type": "end group"}, {"type": "end repeat"}]
+    out.append(_md("c02-override-body-ref-mixed", rows))
+    for dup in ("Q2", "Crop_other"):
+        out.append(_md(f"c02-override-body-ref-mixed-dup-{dup}",
+                       rows[:-2] + [{"type": "text", "name": dup, "label": "D"}] + rows[-2:]))
     return out
 
 
